@@ -180,7 +180,39 @@ def run(ck):
                 c["D"], c["D"] + 2, MAXFRAMES, str(o)[:200]), rep)
             continue
         ck.traces += 1
-    ck.extra.update({"deep_tail_ok": tail_ok, "deep_nontail_ok": nontail_ok, "depths": depths, "model_depth_programs": len(progs), "last_frame_cases": len(edge)})
+    # ---- further shapes of self tail calls, all deeper than the frame stack (1024) and the operand stack (2048) allow without re-use:
+    # no arguments at all (state in a global / in a captured variable), arguments passed with the spread operator, and the short-circuit
+    # forms behind code the optimizer removes (their jump operands are relocated)
+    shapes = []
+    for D in ((3000, 100000) if quick else (1500, 3000, 100000, 1000000)):
+        T, F = {"k": "bool", "b": True}, {"k": "bool", "b": False}
+        I = lambda n: {"k": "int", "n": n}
+        shapes += [
+            ("zero-arg/global", "n := %d\nacc := 0\nf := func() { if n <= 0 { return acc }; n -= 1; acc += 1; return f() }\nr := f()\n" % D, I(D)),
+            ("zero-arg/and", "n := %d\nf := func() { if n <= 0 { return true }; n -= 1; return n >= 0 && f() }\nr := f()\n" % D, T),
+            ("zero-arg/or", "n := %d\nf := func() { if n <= 0 { return false }; n -= 1; return n < 0 || f() }\nr := f()\n" % D, F),
+            ("zero-arg/discarded", "n := %d\nf := func() { if n <= 0 { return }; n -= 1; f() }\nr := f()\nr2 := n\n" % D, {"k": "undef"}),
+            ("zero-arg/captured", "mk := func() { n := %d; g := func() { if n <= 0 { return n }; n -= 1; return g() }; return g }\nr := mk()()\n" % D, I(0)),
+            ("spread/rest", "f := func(n, acc, ...rest) { if n <= 0 { return acc + len(rest) }; return f(n - 1, acc + 1, rest...) }\nr := f(%d, 0, 7, 8)\n" % D, I(D + 2)),
+            ("spread/all", "f := func(...a) { if a[0] <= 0 { return a[1] }; return f([a[0] - 1, a[1] + 1]...) }\nr := f(%d, 0)\n" % D, I(D)),
+            ("spread/or", "f := func(n, ...rest) { return n <= 0 || f(n - 1, rest...) }\nr := f(%d, 1, 2)\n" % D, T),
+            ("dead-code-then-or", "f := func(n) { if n < -5 { return 0; n = 1; n = 2 } else if n < -3 { return 1; n = 3 }; return n <= 0 || f(n - 1) }\nr := f(%d)\n" % D, T),
+            ("dead-code-then-and", "f := func(n) { if n < -5 { return 0; n = 1 }; for false { return 2; n = 9 }; return n > 0 && f(n - 1) }\nr := f(%d)\n" % D, F),
+            ("dead-code-then-call", "f := func(n, acc) { if n < 0 { return -1; acc = 0 }; if n == 0 { return acc; acc = 1 }; return f(n - 1, acc + 2) }\nr := f(%d, 0)\n" % D, I(2 * D)),
+        ]
+        shapes = [(t + ("" if "@" in t else "@%d" % D), s_, w) for (t, s_, w) in shapes]
+    scases = [{"id": i + 1, "src": s_, "inputs": [], "mods": [], "timeout_ms": 60000} for i, (t, s_, w) in enumerate(shapes)]
+    sres = semlib.real_outcomes(ck, scases, nproc=8)
+    for i, (t, s_, w) in enumerate(shapes):
+        o = sres[i + 1]
+        ck.evaluations += 1
+        got = dict((n, v) for n, v in o.get("g", [])).get("r") if o.get("k") == "ok" else None
+        if got != w:
+            ck.violation("tail-shape:" + t.split("@")[0], "self tail call (%s) at depth %s: expected r = %s, got %s %s\n%s" % (
+                t.split("@")[0], t.split("@")[1], w, o.get("k"), str(o.get("msg") or got)[:200], s_), {"program": {"src": s_, "tag": t}, "real": o})
+        else:
+            ck.traces += 1
+    ck.extra.update({"deep_tail_ok": tail_ok, "deep_nontail_ok": nontail_ok, "depths": depths, "model_depth_programs": len(progs), "last_frame_cases": len(edge), "deep_shape_cases": len(shapes)})
     ck.rule = ("14 forms of code after the self call x 0-2 accumulators x variadic x capturing closures; depths 0..12 against TengoSem, "
                "deep depths against the closed form of the equivalent loop with a frame probe")
     ck.assumptions = ["the closed forms used at deep depths are validated against TengoSem at the model depths in the same run"]
